@@ -216,7 +216,31 @@ fn main() {
             explorer(prop, &tier, replay, specs, &ck)
         }
         "C11" => explorer(prop, &tier, replay, c11::specs(&tier), &c11::C11),
-        "C12" => explorer(prop, &tier, replay, c12::specs(&tier), &c12::C12),
+        "C12" => match replay {
+            Some(p) => common::replay_explorer(prop, &p, c12::specs(&tier), &c12::C12),
+            None => common::run_explorer_ext(
+                prop,
+                &tier,
+                c12::specs(&tier),
+                &c12::C12,
+                "explicit-state exploration of the real crate (replay-from-history BFS): status byte at every call boundary and at every device write inside a call (crash-point enumeration from the device log), abandonment remount, fault enumeration with follow-up calls",
+                vec![
+                    "independent decoder implements the FAT specification correctly (anchored to Linux-made images)".into(),
+                    "library is deterministic given device, clock and call sequence (re-execution sample checked on every run)".into(),
+                ],
+                "model_checking",
+                &|rep: &mut harness::report::Report| {
+                    use std::sync::atomic::Ordering::Relaxed;
+                    let o = rep.coverage.as_object_mut().unwrap();
+                    o.insert("in_call_crash_points".into(), serde_json::json!({
+                        "calls_that_started_on_a_clean_status_byte_and_wrote": c12::INCALL_CALLS.load(Relaxed),
+                        "images_rebuilt_and_decoded_while_the_status_byte_said_clean": c12::INCALL_IMAGES.load(Relaxed),
+                        "rule": "for every explored call whose pre-image has bit 0 of the status byte clear: the call's device writes are applied one at a time; until the status byte of the rebuilt image has bit 0 set, its independent decode must equal the decode of the pre-image",
+                    }));
+                    o.insert("fault_follow_up_runs".into(), c12::FAULT_RUNS.load(Relaxed).into());
+                },
+            ),
+        },
         "C13" => explorer(prop, &tier, replay, c13::specs(&tier), &c13::C13),
         "C04" => explorer(prop, &tier, replay, c03::specs(&tier, prop), &c03::C04),
         _ => usage(),
